@@ -217,3 +217,54 @@ func zzC06Retention() {
 
 func ZZ_C06_Loop()      { zzC06(3 + zzTier()) }
 func ZZ_C06_Retention() { zzC06Retention() }
+
+// A request that could not be answered when it first arrived (Establishment naming a node that is
+// not associated yet) is still "seen": a duplicate of it within the retention window is ignored
+// even if it could be answered by now, because the node has associated in the meantime. After the
+// window (the retention timer fires) the same octets are a new request and are executed.
+func zzC06UnansweredThenAnswerable() {
+	l := zzStartLoop(false)
+	l.feed(zzMarshal(zzAssocReq(0xfffff0, zzNodeA)), zzAddrA)
+	s1 := zzSeq24("seq-est")
+	s2 := zzSeq24("seq-assoc")
+	zzAssume(s1 < 0xfffff0 && s2 < 0xfffff0)
+	src := nondetChoice("est-source", 2) // the establishment comes from A or from B's address
+	if src == 1 {
+		zzAssume(s1 != s2)
+	}
+	est := zzMarshal(zzEstReq(s1, ie.NewNodeID(zzNodeB, "", ""), ie.NewFSEID(0x70, []byte{127, 0, 0, 2}, nil), ie.NewCreateFAR(ie.NewFARID(9), ie.NewApplyAction(2))))
+	before := l.effects()
+	l.feed(est, zzAddr(src))
+	after := l.effects()
+	zzAssert("C06.unanswered.first-copy-unanswered", after.sent == before.sent && after.sessions == before.sessions && after.calls == before.calls)
+	zzAssert("C06.unanswered.first-copy-seen", after.rx == before.rx+1)
+	// node B associates
+	l.feed(zzMarshal(zzAssocReq(s2, zzNodeB)), zzAddrB)
+	mid := l.effects()
+	zzAssert("C06.unanswered.association-accepted", mid.sent == after.sent+1 && mid.nodes == after.nodes+1)
+	// the duplicate, 0..2 times
+	for i := 0; i < 1+nondetChoice("copies", 2); i++ {
+		l.feed(est, zzAddr(src))
+		d := l.effects()
+		zzAssert("C06.unanswered.duplicate-not-executed", d.sessions == mid.sessions && d.calls == mid.calls && d.nodes == mid.nodes)
+		zzAssert("C06.unanswered.duplicate-ignored", d.sent == mid.sent)
+		zzAssert("C06.unanswered.bookkeeping-kept", d.rx == mid.rx)
+	}
+	// the window elapses
+	rx, ok := l.s.rxTrans[fmt.Sprintf("%s-%d", zzAddr(src), s1)]
+	zzAssert("C06.unanswered.still-retained", ok)
+	if ok {
+		zzAssert("C06.unanswered.retention-timer-armed", zzFireTimer(rx.timer))
+		zzYield()
+		e := l.effects()
+		zzAssert("C06.unanswered.released-after-window", e.rx == mid.rx-1)
+		// the same octets are now a new request: executed and answered
+		l.feed(est, zzAddr(src))
+		f := l.effects()
+		zzAssert("C06.unanswered.after-window-executed", f.sessions == mid.sessions+1 && f.sent == mid.sent+1)
+	}
+	l.stop()
+	zzCover("C06.unanswered.done")
+}
+
+func ZZ_C06_UnansweredThenAnswerable() { zzC06UnansweredThenAnswerable() }
